@@ -70,7 +70,11 @@ def _values():
     # is a variation of its own
     dups = st.lists(st.sampled_from([0, 5, 10, 10, 20]), min_size=2,
                     max_size=4)
+    # 'no precoder' next to named ones: None is a value like any other
+    withnone = st.lists(st.sampled_from([None, "MRT", "ZF", "x"]),
+                        min_size=2, max_size=4, unique=True)
     return st.one_of(st.tuples(st.just("list"), ints),
+                     st.tuples(st.just("list"), withnone),
                      st.tuples(st.just("list"), dups),
                      st.tuples(st.just("array"), dups),
                      st.tuples(st.just("array"), ints),
@@ -108,6 +112,10 @@ def _cfg(draw, tier, with_file=None):
                   st.integers(0, 6 * rep_max)),
         st.builds(lambda a, b: {"kind": "ratio", "num": a, "den": b},
                   st.integers(0, 8), st.integers(1, 4)),
+        # 'give up after N skipped attempts' (the rule reads the result
+        # num_skipped_reps the runner keeps)
+        st.builds(lambda t: {"kind": "skipped", "thr": t},
+                  st.integers(1, 4)),
     ))
     # type of the value the stop rule returns: bool or numpy.bool_
     stop = dict(stop, ret=draw(st.sampled_from(["bool", "bool", "npbool"])))
@@ -124,6 +132,9 @@ def _cfg(draw, tier, with_file=None):
             [[vd, a] for a in range(m * (rep_max + 2)) if a % m != m - 1]
     if with_file is None:
         with_file = draw(st.booleans())
+    if with_file and stop["kind"] == "skipped":
+        # (the skipped count is not carried over by partial-result files)
+        with_file = False
     filename = None
     ext = ""
     if with_file:
@@ -162,7 +173,7 @@ def _program(draw, tier):
         # runner between the two simulate() calls
         which = draw(st.integers(0, len(cfg["unpacked"]) - 1))
         old = cfg["unpacked"][which][1]
-        if isinstance(old[0], str):
+        if any(isinstance(x, str) or x is None for x in old):
             new = draw(st.lists(st.sampled_from(["n1", "n2", "QPSK", "zz"]),
                                 min_size=1, max_size=4, unique=True))
         else:
@@ -206,7 +217,7 @@ class Model(object):
             sumv = sum(H.val_sumv(g) for g in succ)
             rv = sum(H.val_ratio(g)[0] for g in succ)
             rt = sum(H.val_ratio(g)[1] for g in succ)
-            return H.stop_model(cfg, v, len(succ), sumv, (rv, rt))
+            return H.stop_model(cfg, v, len(succ), sumv, (rv, rt), skipped)
 
         while True:
             if len(succ) >= 1 and (len(succ) >= cfg["rep_max"] or
